@@ -87,6 +87,8 @@ var c20Allowed = map[[2]int8]bool{
 	{1, 2}: true, // Running→Closing
 	{2, 0}: true, // Closing→Starting (reload)
 	{2, 3}: true, // Closing→Closed
+	{0, 2}: true, // Starting→Closing (the new configuration of a reload could not be brought up: close)
+	{2, 2}: true, // Closing→Closing (the retiring service failed to shut down: still closing)
 }
 
 type c20Ret struct {
@@ -579,10 +581,28 @@ func runC20(c *Ctx) {
 	}
 	// internal shutdown function shape
 	var shut *ssa.Function
+	var provOnly []*ssa.Function // closing helpers for exits on which no service is left (failed reload): provider only
 	for _, fn := range funcs {
 		if fn.Parent() == nil && recvNamedOfFn(fn) == colT && len(callsNamed(fn, func(f *types.Func) bool { return isMethod(f, pkgOtelcol, "ConfigProvider", "Shutdown") })) > 0 {
-			shut = fn
+			if len(callsNamed(fn, func(f *types.Func) bool { return isServiceShutdownFn(p, f) })) > 0 {
+				shut = fn
+			} else {
+				provOnly = append(provOnly, fn)
+			}
 		}
+	}
+	for _, po := range provOnly {
+		cp := callsNamed(po, func(f *types.Func) bool { return isMethod(f, pkgOtelcol, "ConfigProvider", "Shutdown") })
+		sets := callsTo(po, funcObj(setter))
+		okShape := len(cp) == 1 && len(sets) == 2 && len(guardsOf(cp[0].Block())) == 0 && len(returnsOf(po)) == 1
+		if okShape {
+			first, last := sets[0], sets[1]
+			if instrDominates(last, first) {
+				first, last = last, first
+			}
+			okShape = instrDominates(first, cp[0]) && instrDominates(cp[0], last)
+		}
+		c.Check(okShape, "closing helper "+fnName(po)+": provider shut down unconditionally between Closing and Closed", p.Pos(po.Pos()), "unconditional, bracketed by the two state writes, single return", "the provider shutdown is conditional or outside the Closing…Closed bracket")
 	}
 	if shut == nil {
 		c.Bad("internal shutdown function", "-", "no Collector method shuts the config provider down")
@@ -609,7 +629,16 @@ func runC20(c *Ctx) {
 		}
 		res := resultsOf(r)
 		call, ok := strip(res[0]).(*ssa.Call)
-		c.Check(ok && shut != nil && staticCalleeFn(call) == shut, fmt.Sprintf("Run return #%d returns the internal shutdown's result", i+1), p.Pos(r.Pos()), "return col.shutdown(...)", "a normal exit of Run does not go through the internal shutdown")
+		isCloser := ok && shut != nil && staticCalleeFn(call) == shut
+		if ok {
+			for _, po := range provOnly {
+				// legal only where the typestate engine has shown that no service is live (checked by the effect obligations above)
+				if staticCalleeFn(call) == po {
+					isCloser = true
+				}
+			}
+		}
+		c.Check(isCloser, fmt.Sprintf("Run return #%d returns the internal shutdown's result", i+1), p.Pos(r.Pos()), "return col.shutdown(...)", "a normal exit of Run does not go through the internal shutdown")
 	}
 
 	// ---------- R3
@@ -781,6 +810,7 @@ func runC20(c *Ctx) {
 	runC20FatalDrain(c)
 	runC20Round5(c)
 	runC20Signals(c)
+	runC20ProviderShutdown(c)
 }
 
 func constantInt64(c *types.Const) (int64, bool) {
